@@ -6,6 +6,8 @@ From Coq Require Import List ZArith Bool Permutation Sorted.
 From SVC Require Import Base.AMap Base.Res Base.Dec Model.Types Model.Pricing Model.Handlers
   Model.Queries.
 From SVC Require Proofs.QueryProofs Proofs.Inv Proofs.ReachProps.
+From SVC Require Model.EndBlock Model.Step Proofs.ReachRun Proofs.GapC17.
+From SVC Require Base.Bytes gen.KeysGen Proofs.GapC17K.
 Import ListNotations.
 Open Scope Z_scope.
 
@@ -193,3 +195,198 @@ Theorem C17_hypotheses_hold :
     /\ wf (wdaddr s) /\ wf (earned s) /\ NoDup (own_bind s).
 Proof. exact SVC.Proofs.ReachProps.query_hypotheses. Qed.
 Print Assumptions C17_hypotheses_hold.
+
+(* ------------------------------------------------------------------ *)
+(* Over reachable states (Proofs/GapC17.v): the theorems above with their hypotheses
+   discharged by C17_hypotheses_hold, one by one. *)
+Notation wf_cfg := SVC.Proofs.Inv.wf_cfg.
+Notation Reach := SVC.Proofs.Inv.Reach.
+
+Theorem C17_reach_q_definition : forall cfg s svc, wf_cfg cfg -> Reach cfg s ->
+  (forall d, q_definition s svc = AOk d <-> In (svc, d) (defs s)) /\
+  (q_definition s svc = ANotFound <-> ~ In svc (keys (defs s))) /\
+  q_definition s svc <> AErr.
+Proof. intros cfg s svc Hc Hr. exact (GapC17.reach_q_definition cfg s Hc Hr svc). Qed.
+Print Assumptions C17_reach_q_definition.
+
+Theorem C17_reach_q_binding : forall cfg s svc prov, wf_cfg cfg -> Reach cfg s ->
+  (forall b, q_binding s svc prov = AOk b <-> In ((svc, prov), b) (binds s)) /\
+  (q_binding s svc prov = ANotFound <-> ~ In (svc, prov) (keys (binds s))) /\
+  q_binding s svc prov <> AErr.
+Proof. intros cfg s svc prov Hc Hr. exact (GapC17.reach_q_binding cfg s Hc Hr svc prov). Qed.
+Print Assumptions C17_reach_q_binding.
+
+Theorem C17_reach_q_bindings : forall cfg s svc, wf_cfg cfg -> Reach cfg s ->
+  exists l, q_bindings s svc 0 = AOk l /\
+            (forall k b, In (k, b) l <-> In (k, b) (binds s) /\ fst k = svc) /\ NoDup l.
+Proof. intros cfg s svc Hc Hr. exact (GapC17.reach_q_bindings cfg s Hc Hr svc). Qed.
+Print Assumptions C17_reach_q_bindings.
+
+Theorem C17_reach_q_bindings_owner : forall cfg s svc owner, wf_cfg cfg -> Reach cfg s ->
+  owner <> 0 ->
+  exists l, q_bindings s svc owner = AOk l /\
+            (forall k b, In (k, b) l <->
+                         In (k, b) (binds s) /\ fst k = svc /\ b_owner b = owner) /\
+            NoDup l.
+Proof. intros cfg s svc owner Hc Hr. exact (GapC17.reach_q_bindings_owner cfg s Hc Hr svc owner). Qed.
+Print Assumptions C17_reach_q_bindings_owner.
+
+Theorem C17_reach_q_withdraw_address : forall cfg s owner, wf_cfg cfg -> Reach cfg s ->
+  exists a, q_withdraw_address s owner = AOk a /\
+            (forall a', In (owner, a') (wdaddr s) -> a = a') /\
+            (~ In owner (keys (wdaddr s)) -> a = owner) /\
+            (a = owner \/ In (owner, a) (wdaddr s)).
+Proof. intros cfg s owner Hc Hr. exact (GapC17.reach_q_withdraw_address cfg s Hc Hr owner). Qed.
+Print Assumptions C17_reach_q_withdraw_address.
+
+Theorem C17_reach_q_request_context : forall cfg s c, wf_cfg cfg -> Reach cfg s ->
+  (forall rc, q_request_context s c = AOk rc <-> In (c, rc) (ctxs s)) /\
+  (q_request_context s c = ANotFound <-> ~ In c (keys (ctxs s))) /\
+  q_request_context s c <> AErr.
+Proof. intros cfg s c Hc Hr. exact (GapC17.reach_q_request_context cfg s Hc Hr c). Qed.
+Print Assumptions C17_reach_q_request_context.
+
+Theorem C17_reach_q_request : forall cfg s r, wf_cfg cfg -> Reach cfg s ->
+  (forall fr, q_request s r = AOk fr <->
+              exists q rc, In (r, q) (reqs s) /\ In (rid_ctx r, rc) (ctxs s) /\
+                           fr = join_request r q rc) /\
+  (q_request s r = ANotFound <-> ~ In r (keys (reqs s))) /\
+  q_request s r <> AErr.
+Proof. intros cfg s r Hc Hr. exact (GapC17.reach_q_request cfg s Hc Hr r). Qed.
+Print Assumptions C17_reach_q_request.
+
+Theorem C17_reach_q_response : forall cfg s r, wf_cfg cfg -> Reach cfg s ->
+  (forall x, q_response s r = AOk x <-> In (r, x) (resps s)) /\
+  (q_response s r = ANotFound <-> ~ In r (keys (resps s))) /\
+  q_response s r <> AErr.
+Proof. intros cfg s r Hc Hr. exact (GapC17.reach_q_response cfg s Hc Hr r). Qed.
+Print Assumptions C17_reach_q_response.
+
+(* the two request listings: exactly the stored records, joined with their contexts, and no
+   fabricated (zero) entry *)
+Theorem C17_reach_q_requests : forall cfg s svc prov, wf_cfg cfg -> Reach cfg s ->
+  exists l, q_requests s svc prov = AOk l /\
+            (forall fr, In fr l <->
+                        exists r q rc, In (r, q) (reqs s) /\ get (rid_ctx r) (ctxs s) = Some rc /\
+                                       r_active q = true /\ r_prov q = prov /\ c_svc rc = svc /\
+                                       fr = join_request r q rc) /\
+            ~ In zero_request l.
+Proof. intros cfg s svc prov Hc Hr. exact (GapC17.reach_q_requests cfg s Hc Hr svc prov). Qed.
+Print Assumptions C17_reach_q_requests.
+
+Theorem C17_reach_q_requests_by_ctx : forall cfg s c batch, wf_cfg cfg -> Reach cfg s ->
+  exists l, q_requests_by_ctx s c batch = AOk l /\
+            (forall fr, In fr l <->
+                        exists r q rc, In (r, q) (reqs s) /\ get (rid_ctx r) (ctxs s) = Some rc /\
+                                       rid_ctx r = c /\ rid_batch r = batch /\
+                                       fr = join_request r q rc) /\
+            length l = length (filter (fun kv => in_batch c batch (fst kv)) (reqs s)) /\
+            ~ In zero_request l.
+Proof. intros cfg s c batch Hc Hr. exact (GapC17.reach_q_requests_by_ctx cfg s Hc Hr c batch). Qed.
+Print Assumptions C17_reach_q_requests_by_ctx.
+
+Theorem C17_reach_q_responses : forall cfg s c batch, wf_cfg cfg -> Reach cfg s ->
+  exists l, q_responses s c batch = AOk l /\
+            (forall r x, In (r, x) l <->
+                         In (r, x) (resps s) /\ rid_ctx r = c /\ rid_batch r = batch) /\
+            Sorted (QueryProofs.le_of resp_leb) l /\ NoDup l.
+Proof. intros cfg s c batch Hc Hr. exact (GapC17.reach_q_responses cfg s Hc Hr c batch). Qed.
+Print Assumptions C17_reach_q_responses.
+
+Theorem C17_reach_q_earned_fees : forall cfg s prov, wf_cfg cfg -> Reach cfg s ->
+  exists l, q_earned_fees s prov = AOk l /\
+            (forall v, In v l <-> In (prov, v) (earned s)) /\ (length l <= 1)%nat.
+Proof. intros cfg s prov Hc Hr. exact (GapC17.reach_q_earned_fees cfg s Hc Hr prov). Qed.
+Print Assumptions C17_reach_q_earned_fees.
+
+(* "each request reconstructed from its context correctly": the joined fields are those in
+   force when the request was issued - over any run, a request stored at both ends shows the
+   same service, provider, consumer, input, fee, super mode and expiration height (its id is
+   never re-used: C17_issued_before) *)
+Theorem C17_issued_before : forall cfg s r q, wf_cfg cfg -> Reach cfg s ->
+  get r (reqs s) = Some q -> rid_height r < height s.
+Proof. intros cfg s r q Hc Hr. exact (GapC17.Reach_issued_before cfg s Hc Hr r q). Qed.
+Print Assumptions C17_issued_before.
+
+Theorem C17_reconstruction_stable : forall cfg s ops r q q' rc rc',
+  wf_cfg cfg -> Reach cfg s -> SVC.Proofs.ReachRun.wf_run cfg s ops ->
+  get r (reqs s) = Some q -> get (rid_ctx r) (ctxs s) = Some rc ->
+  get r (reqs (Step.run cfg s ops)) = Some q' ->
+  get (rid_ctx r) (ctxs (Step.run cfg s ops)) = Some rc' ->
+  let a := join_request r q rc in let b := join_request r q' rc' in
+  fr_svc b = fr_svc a /\ fr_prov b = fr_prov a /\ fr_cons b = fr_cons a /\ fr_input b = fr_input a
+  /\ fr_fee b = fr_fee a /\ fr_super b = fr_super a /\ fr_exp b = fr_exp a
+  /\ fr_height b = fr_height a /\ fr_ctx b = fr_ctx a /\ fr_batch b = fr_batch a.
+Proof. exact GapC17.C17_reconstruction_stable. Qed.
+Print Assumptions C17_reconstruction_stable.
+
+(* The legacy interface decodes address arguments from amino JSON, which accepts the empty
+   address or exactly 20 bytes (AccAddress.UnmarshalJSON -> VerifyAddressFormat); the gRPC
+   request carries raw bytes of any length.  For every byte-length assignment `alen` the two
+   interfaces agree on the decodable addresses and the legacy one fails on all others. *)
+Theorem C17_same_answers_addr : forall (alen : Z -> Z) s,
+  (forall svc prov, GapC17.json_addr_ok alen prov = true ->
+     lq_binding (GapC17.json_addr_ok alen prov) s svc prov = q_binding s svc prov)
+  /\ (forall svc owner, GapC17.json_addr_ok alen owner = true ->
+     lq_bindings (GapC17.json_addr_ok alen owner) s svc owner = q_bindings s svc owner)
+  /\ (forall owner, GapC17.json_addr_ok alen owner = true ->
+     lq_withdraw_address (GapC17.json_addr_ok alen owner) s owner = q_withdraw_address s owner)
+  /\ (forall svc prov, GapC17.json_addr_ok alen prov = true ->
+     lq_requests (GapC17.json_addr_ok alen prov) s svc prov = q_requests s svc prov)
+  /\ (forall prov, GapC17.json_addr_ok alen prov = true ->
+     lq_earned_fees (GapC17.json_addr_ok alen prov) s prov = q_earned_fees s prov).
+Proof. exact GapC17.same_answers_addr. Qed.
+Print Assumptions C17_same_answers_addr.
+
+Theorem C17_json_addr_ok_def : forall alen a,
+  GapC17.json_addr_ok alen a = ((a =? 0) || (alen a =? 20)).
+Proof. reflexivity. Qed.
+Print Assumptions C17_json_addr_ok_def.
+
+Theorem C17_legacy_rejects_other_lengths : forall (alen : Z -> Z) s,
+  (forall svc prov, GapC17.json_addr_ok alen prov = false ->
+     lq_binding (GapC17.json_addr_ok alen prov) s svc prov = AErr)
+  /\ (forall svc owner, GapC17.json_addr_ok alen owner = false ->
+     lq_bindings (GapC17.json_addr_ok alen owner) s svc owner = AErr)
+  /\ (forall owner, GapC17.json_addr_ok alen owner = false ->
+     lq_withdraw_address (GapC17.json_addr_ok alen owner) s owner = AErr)
+  /\ (forall svc prov, GapC17.json_addr_ok alen prov = false ->
+     lq_requests (GapC17.json_addr_ok alen prov) s svc prov = AErr)
+  /\ (forall prov, GapC17.json_addr_ok alen prov = false ->
+     lq_earned_fees (GapC17.json_addr_ok alen prov) s prov = AErr).
+Proof. exact GapC17.legacy_rejects_other_lengths. Qed.
+Print Assumptions C17_legacy_rejects_other_lengths.
+
+(* hence "gRPC and legacy give the same answers" is false for such arguments, on a reachable
+   state: gRPC answers, legacy fails *)
+Theorem C17_same_answers_refuted :
+  exists cfg s svc prov b, wf_cfg cfg /\ Reach cfg s
+    /\ q_binding s svc prov = AOk b /\ lq_binding false s svc prov = AErr
+    /\ (exists l, q_requests s svc prov = AOk l) /\ lq_requests false s svc prov = AErr
+    /\ (exists l, q_earned_fees s prov = AOk l) /\ lq_earned_fees false s prov = AErr.
+Proof. exact GapC17.C17_same_answers_refuted. Qed.
+Print Assumptions C17_same_answers_refuted.
+
+(* Bridge to the key layer (C18): the prefix scans behind the two binding listings select exactly
+   what the model's atom-level filters select, for any injective zero-free byte form of the
+   service names (so also for names that are prefixes of one another) and 20-byte owners. *)
+Theorem C17_bindings_scan_is_filter :
+  forall (bech : Bytes.bytes -> Bytes.bytes) (nb ab : Z -> Bytes.bytes),
+    (forall a b, nb a = nb b -> a = b) -> (forall a, Bytes.zero_free (nb a)) ->
+    forall (s : State) svc k b, In (k, b) (binds s) ->
+      (Bytes.is_prefix (KeysGen.GetBindingsSubspace (nb svc))
+                       (KeysGen.GetServiceBindingKey bech (nb (fst k)) (ab (snd k)))
+       <-> In (k, b) (bindings_of_service s svc)).
+Proof. exact GapC17K.bindings_scan_is_filter. Qed.
+Print Assumptions C17_bindings_scan_is_filter.
+
+Theorem C17_owner_bindings_scan_is_filter :
+  forall (nb ab : Z -> Bytes.bytes),
+    (forall a b, nb a = nb b -> a = b) -> (forall a, Bytes.zero_free (nb a)) ->
+    (forall a b, ab a = ab b -> a = b) ->
+    forall owner svc o sv p, length (ab owner) = 20%nat -> length (ab o) = 20%nat ->
+      (Bytes.is_prefix (KeysGen.GetOwnerBindingsSubspace (ab owner) (nb svc))
+                       (KeysGen.GetOwnerServiceBindingKey (ab o) (nb sv) (ab p))
+       <-> ((o =? owner) && (sv =? svc) = true)).
+Proof. exact GapC17K.owner_bindings_scan_is_filter. Qed.
+Print Assumptions C17_owner_bindings_scan_is_filter.
